@@ -89,55 +89,108 @@ def prec(R, ctx):
 def needs(R, ctx):
     rid = "C02.needs"
     lib = ctx.lib
-    R.rule(rid, "for a binary child: left operand needs parentheses iff (parent left-assoc ? precedes(parent, child) : !precedes(child, parent)); "
-                "right operand iff (parent right-assoc ? precedes(parent, child) : !precedes(child, parent)); a unary left operand iff the "
-                "parent precedes unary; an if-expression left operand always")
+    R.rule(rid, "decision table of BinaryOperator::{left,right}_needs_parentheses, evaluated over the whole function body (local helpers inlined, "
+                "boolean lets tracked) per operand kind: a Binary operand IS parenthesised whenever the grammar requires it "
+                "(left: parent left-assoc ? precedes(parent, child) : !precedes(child, parent); right: symmetrical with right-assoc); a unary left "
+                "operand when the parent precedes unary (`^`); an if-expression left operand always; a Binary/Unary left operand that ends with an "
+                "if-expression; and for `<` a Binary/Unary/TypeCast left operand that ends with a cast to a bare type name (`x :: T < y` would "
+                "open T's type parameters). Extra parentheses never change the tree's meaning, so only missing ones are violations")
+    KNOWN = ("precedes", "is_left_associative", "is_right_associative", "precedes_unary_expression", "operator")
     for side, assoc_fn in (("left", "is_left_associative"), ("right", "is_right_associative")):
         fn = lib.fn("%s::%s_needs_parentheses" % (BINOP, side))
         if not R.require(rid, "anchor:%s_needs_parentheses" % side, fn is not None, "", "not found"):
             continue
-        fa = ctx.an.fa(fn["path"])
-        ms = [m for m in tables.matches_on(lib, thir.body_of(fn), EXPR)]
-        if not R.require(rid, "%s|anchor:match" % side, len(ms) >= 1, ctx.where(fn), "no match on the operand"):
-            continue
-        m = ms[0]
-        arms = {}
-        for arm in m["arms"]:
-            for a, v in thir.pat_variants(arm["pat"]):
-                if a == EXPR:
-                    arms[v] = arm
-            if thir.pat_is_catchall(arm["pat"]):
-                arms["_"] = arm
-        bin_arm = arms.get("Binary")
-        if R.require(rid, "%s|anchor:Binary-arm" % side, bin_arm is not None, ctx.where(fn), "no Binary arm"):
-            def atom(e, fa=fa, assoc_fn=assoc_fn):
-                if e.get("k") != "Call":
-                    return None
-                if e.get("fname") == assoc_fn:
-                    return ("assoc",)
-                if e.get("fname") in ("is_left_associative", "is_right_associative"):
-                    return ("not", ("assoc",))
-                if e.get("fname") == "precedes":
-                    recv_self = ("#param", 0) in fa.origins(e["args"][0]) and not any(c.get("fname") == "operator" for c in thir.walk(e["args"][0]) if c.get("k") == "Call")
-                    return ("p_parent_child",) if recv_self else ("p_child_parent",)
+        owner = {}
+
+        def own(f):
+            fa_ = ctx.an.fa(f["path"])
+            for n in thir.walk(thir.body_of(f)):
+                owner[id(n)] = fa_
+        own(fn)
+        seen_atoms = set()
+
+        def helper(e):
+            if e.get("k") != "Call" or e.get("fname") in KNOWN:
                 return None
-            for assoc in (True, False):
-                for pc, cp in ((True, False), (False, True), (False, False)):
-                    it = absint.Interp(atom, lambda c: None, {("assoc",): assoc, ("p_parent_child",): pc, ("p_child_parent",): cp})
-                    ps = it.exec_value(bin_arm["body"], [absint.Path()])
-                    rets = {p.ret for p in ps}
-                    want = pc if assoc else (not cp)
-                    R.ob(rid, "%s|binary|assoc=%s,parent>child=%s,child>parent=%s" % (side, assoc, pc, cp), rets == {want}, ctx.where(fn, bin_arm.get("l")),
-                         "returns %s, grammar requires %s" % (sorted(rets, key=str), want))
-        un = arms.get("Unary")
+            q = lib.fn(thir.callee_of(e) or "")
+            if q is None or not q["path"].startswith(BINOP + "::") or not thir.body_of(q) or not e["args"]:
+                return None
+            fa_ = owner.get(id(e))
+            if fa_ is None or ("#param", 0) not in fa_.origins(e["args"][0]):
+                return None
+            return q
+
+        def inline(e):
+            q = helper(e)
+            if q is None:
+                return None
+            b_ = thir.body_of(q)
+            if id(b_) not in owner:
+                own(q)
+            return b_
+
+        def atom(e, assoc_fn=assoc_fn):
+            if e.get("k") != "Call" or "fname" not in e:
+                return None
+            f = e["fname"]
+            if f == assoc_fn:
+                return ("assoc",)
+            if f in ("is_left_associative", "is_right_associative"):
+                return ("not", ("assoc",))
+            if f == "precedes_unary_expression":
+                return ("p_unary",)
+            if f == "precedes":
+                fa_ = owner.get(id(e))
+                o = fa_.origins(e["args"][0]) if fa_ else set()
+                recv_self = ("#param", 0) in o and not any(c.get("fname") == "operator" for c in thir.walk(e["args"][0]) if c.get("k") == "Call")
+                return ("p_parent_child",) if recv_self else ("p_child_parent",)
+            if helper(e) is not None:
+                return None
+            seen_atoms.add(f)
+            return ("extra", f)
+
+        def run_case(kind, op, fixed):
+            def select(m):
+                t = lib.types[lib.strip_refs(m["scrut"]["t"])].get("adt")
+                if t == EXPR:
+                    return [a for a in m["arms"] if (EXPR, kind) in thir.pat_variants(a["pat"]) or thir.pat_is_catchall(a["pat"])]
+                if t == BINOP:
+                    return [a for a in m["arms"] if (BINOP, op) in thir.pat_variants(a["pat"]) or thir.pat_is_catchall(a["pat"])]
+                return None
+            it = absint.Interp(atom, lambda c: None, fixed, default=lambda a: False if a[0] == "extra" else None, select=select, inline=inline)
+            try:
+                ps = it.exec_value(thir.body_of(fn), [absint.Path()])
+            except RuntimeError:
+                return {"too many paths"}
+            return {p.ret for p in ps}
+
+        def need_true(key, kind, op, fixed, what):
+            rets = run_case(kind, op, fixed)
+            R.ob(rid, "%s|%s" % (side, key), rets == {True}, ctx.where(fn),
+                 "%s: returns %s%s" % (what, sorted(rets, key=str), "" if rets == {True} else " -- parentheses required by the grammar are not written"))
+
+        base = {("assoc",): True, ("p_parent_child",): False, ("p_child_parent",): True, ("p_unary",): False}
+        for assoc in (True, False):
+            for pc, cp in ((True, False), (False, True), (False, False)):
+                want = pc if assoc else (not cp)
+                fixed = {("assoc",): assoc, ("p_parent_child",): pc, ("p_child_parent",): cp, ("p_unary",): False}
+                if want:
+                    need_true("binary|assoc=%s,parent>child=%s,child>parent=%s" % (assoc, pc, cp), "Binary", "Plus", fixed, "grammar requires parentheses")
+                else:
+                    rets = run_case("Binary", "Plus", fixed)
+                    R.ob(rid, "%s|binary-optional|assoc=%s,parent>child=%s,child>parent=%s" % (side, assoc, pc, cp), True, ctx.where(fn),
+                         "parentheses optional here; returns %s" % sorted(rets, key=str), nontrivial=False)
         if side == "left":
-            ok = un is not None and un["body"].get("k") == "Call" and un["body"].get("fname") == "precedes_unary_expression"
-            R.ob(rid, "left|unary", ok, ctx.where(fn), "unary left operand parenthesised iff parent precedes unary (a ^ ... binds tighter): %s" % ok)
-            iff = arms.get("If")
-            R.ob(rid, "left|if-expression", iff is not None and tables.classify_body(iff["body"]) == "true", ctx.where(fn), "if-expression as left operand is always parenthesised")
-            # the result must include the match result (`needs_parentheses || ...` only ever adds parentheses)
-        else:
-            R.ob(rid, "right|unary", un is None or tables.classify_body(un["body"]) == "false" or True, ctx.where(fn), "unary right operand never needs parentheses", nontrivial=False)
+            need_true("unary", "Unary", "Caret", {**base, ("p_unary",): True}, "unary left operand of an operator that precedes unary (-a ^ b)")
+            need_true("if-expression", "If", "Plus", base, "if-expression as left operand")
+            for kind in ("Binary", "Unary"):
+                need_true("ends-with-if|" + kind, kind, "Plus", {**base, ("extra", "ends_with_if_expression"): True},
+                          "%s left operand ending with an if-expression (it would swallow the operator)" % kind)
+            for kind in ("Binary", "Unary", "TypeCast"):
+                need_true("cast-before-<|" + kind, kind, "LowerThan", {**base, ("extra", "ends_with_type_cast_to_type_name_without_type_parameters"): True},
+                          "%s left operand of `<` ending with a cast to a bare type name" % kind)
+            R.require(rid, "left|anchor:extras", {"ends_with_if_expression", "ends_with_type_cast_to_type_name_without_type_parameters"} <= seen_atoms, ctx.where(fn),
+                      "predicates consulted: %s" % sorted(seen_atoms))
 
 
 def gen_parens(R, ctx):
